@@ -714,7 +714,7 @@ class Gen:
             main = body + main  # first statement is whatever comes (variables then initialised late: only safe if unused before)
             main = [s for s in main]
             # keep definite assignment: initialisers must come first when variables are used; so only do this when no loads
-            if any(n[0] in ("load", "dload") for n in _nodes_of(body)):
+            if any(n[0] in ("load", "dload", "abi", "ref", "dset", "abicall") for n in _nodes_of(body)):
                 main = main[len(body):] + body
         else:
             main = main + body
